@@ -681,8 +681,9 @@ func Input(l *InputSharedVars, g *GlobalVarsMain, hPath *HFilePath, driConfig *C
 					}
 
 					for i := 1; i <= NRTIL; i++ {
-						if g.EINTE[i+1] == g.EINTE[i] {
-							g.EINTE[i+1] = g.EINTE[i+1] + 1
+						// an event that does not come after the (possibly shifted) previous one is moved to the day after it
+						if i+1 <= NRTIL && g.EINTE[i+1] <= g.EINTE[i] {
+							g.EINTE[i+1] = g.EINTE[i] + 1
 						}
 					}
 				}
